@@ -70,7 +70,7 @@ def run_shard(params, rec):
     g_mk = X.HGen(rng, widths=X.WIDTHS_256, max_width=256, loc=0.0)
     g_mk_loc = X.HGen(rng, widths=X.WIDTHS_256, max_width=256, loc=0.15)
     tpy = TranslatorPython()
-    slow_evals = [0]
+    slow_evals = [0.0]
     big_shift = [False]
     tmk = TranslatorMiasm()
     mk_ns = dict((k, getattr(m2, k)) for k in ("ExprInt", "ExprId", "ExprMem", "ExprOp", "ExprSlice",
@@ -123,8 +123,10 @@ def run_shard(params, rec):
         try:
             return eval(code, ns)
         finally:
-            if big_shift[0] and time.process_time() - t0 > 0.004:
-                slow_evals[0] += 1     # CPU time; only bounds the cost, never decides a verdict
+            if big_shift[0]:
+                # CPU time spent on valuations with a '<<' count >= 2^24; only bounds the cost of a
+                # source that builds 2^count-bit integers, never decides a verdict
+                slow_evals[0] += time.process_time() - t0
 
     def describe(s, env):
         c = s.__class__
@@ -232,9 +234,9 @@ def run_shard(params, rec):
             worst = shift_class(e, env) if '<<' in ops else 0
             big_shift[0] = bool(worst)
             if worst:
-                if slow_evals[0] >= 40:
+                if slow_evals[0] >= 8.0:
                     # the source really builds 2^count-bit integers (already reported): stop paying for it
-                    rec.count("py:shift_count>=2^24_skipped_after_40_slow_evaluations")
+                    rec.count("py:shift_count>=2^24_skipped_after_8s_cpu")
                     continue
                 rec.count("py:shift_count>=2^24_evaluated")
             try:
